@@ -218,7 +218,6 @@ class Bip44Base(ABC):
         return Bip44PublicKey(self.m_bip32_obj.PublicKey(),
                               self.m_coin_conf)
 
-    @lru_cache()
     def PrivateKey(self) -> Bip44PrivateKey:
         """
         Return the private key.
